@@ -7,7 +7,7 @@ code points (`-` = empty string).  Values: `s:<str>`, `i:<int>`, `f:<float liter
 `b:0|1`, `n`.  A defaults item is `<key>;<value>`.
 
 ops
-* `ct <win 0|1> <descriptor> <default>*`        → `ok <cls> k=v …` | `exc:<PyType>`
+* `ct <win 0|1> <descriptor> <default>*`        → `ok <cls> attr=v|(v1|v2) …` | `exc:<PyType>`
 * `pps <iface> <descriptor> <default>*`         → `ok k=v …` (sorted by key) | `exc:<PyType>`
 * `parts <descriptor>`                          → `ok <part>*` | `exc:<PyType>`
 * `int <base> <str>`                            → `ok <int>` | `exc:ValueError`
@@ -63,9 +63,17 @@ def excName : PyExc → String
   | .descriptor => "exc:QMI_TransportDescriptorException"
   | .valueError => "exc:ValueError"
   | .typeError => "exc:TypeError"
+  | .attributeError => "exc:AttributeError"
 
 def encItems (l : List (Str × PyVal)) : String :=
   " ".intercalate (l.map (fun kv => String.ofList kv.1 ++ "=" ++ encVal kv.2))
+
+/-- attribute values: a single value, or `(v1|v2)` for a tuple attribute -/
+def encAttrs (l : List (Str × List PyVal)) : String :=
+  " ".intercalate (l.map (fun kv => String.ofList kv.1 ++ "=" ++
+    (match kv.2 with
+     | [v] => encVal v
+     | vs => "(" ++ "|".intercalate (vs.map encVal) ++ ")")))
 
 def insertKey (x : Str × PyVal) : List (Str × PyVal) → List (Str × PyVal)
   | [] => [x]
@@ -84,7 +92,7 @@ def handle (line : String) : String :=
      | some s, some ds =>
        if w != "0" && w != "1" then "bad-op" else
        (match createTransport env (w == "1") s ds with
-        | .ok t => joinOk [String.ofList t.cls, encItems t.attrs]
+        | .ok t => joinOk [String.ofList t.cls, encAttrs t.attrs]
         | .err e => excName e)
      | _, _ => "bad-op")
   | "pps" :: name :: d :: defs =>
